@@ -2,7 +2,7 @@
     (coq/Gen/Tr*.v): the Python operations the translated subset uses, as total functions
     into [result].  No proofs about particular translated functions here; only small
     characterising lemmas that the tie proofs ([<Area>/Tie*.v]) share. *)
-From Verif Require Import Lib.Base Lib.PyStr Lib.Dec.
+From Verif Require Import Lib.Base Lib.PyStr Lib.Dec Lib.PySlice.
 
 Definition tr_is_nil {A} (l : list A) : bool := match l with [] => true | _ => false end.
 Definition tr_is_some {A} (o : option A) : bool := match o with Some _ => true | None => false end.
@@ -70,3 +70,30 @@ Definition tr_mod (a b : Z) : result Z := if (b =? 0)%Z then Err OtherError else
 (** [min]/[max] on ints *)
 Definition tr_min (a b : Z) : Z := Z.min a b.
 Definition tr_max (a b : Z) : Z := Z.max a b.
+
+(** [l[i:j]] with optional bounds (step 1) and [l[i:j] = r] *)
+Definition tr_slice {A} (l : list A) (i j : option Z) : list A :=
+  slice l (match i with Some i => i | None => 0%Z end)
+          (match j with Some j => j | None => Z.of_nat (length l) end).
+Definition tr_slice_assign {A} (l : list A) (i j : option Z) (r : list A) : list A :=
+  slice_assign l (match i with Some i => i | None => 0%Z end)
+                 (match j with Some j => j | None => Z.of_nat (length l) end) r.
+
+(** [l[i] = v] *)
+Fixpoint tr_set_nth {A} (l : list A) (i : nat) (v : A) : option (list A) :=
+  match l, i with
+  | [], _ => None
+  | _ :: l, O => Some (v :: l)
+  | a :: l, S i => match tr_set_nth l i v with Some l' => Some (a :: l') | None => None end
+  end.
+Definition tr_set_index {A} (l : list A) (i : Z) (v : A) : result (list A) :=
+  let n := Z.of_nat (length l) in
+  let j := if (i <? 0)%Z then (i + n)%Z else i in
+  if (j <? 0)%Z then Err IndexError
+  else match tr_set_nth l (Z.to_nat j) v with
+       | Some l' => Ok l'
+       | None => Err IndexError
+       end.
+
+(** [[x for x in l if p(x)]] *)
+Definition tr_filter {A} (p : A -> bool) (l : list A) : list A := filter p l.
